@@ -24,7 +24,9 @@ RULE = ("uniform: random UniformIce (index, range, index_above/below incl. None)
         "refracted paths launched 0.01-0.9 degree below a critical angle (forward Snell construction as reference); "
         "endpoints exactly on a range bound with explicit outside indices; integer-valued endpoints handed over as Python ints, "
         "int lists, int64 and float32 arrays (uniform and layered tracers, against the model, the image construction and the "
-        "float64 evaluation); a case is non-trivial when it has at "
+        "float64 evaluation); split media built from ArasimIce / GreenlandIce layers and from a user subclass of UniformIce, "
+        "attenuation of the chained paths against the unsplit path; evaluate-replace-evaluate on one tracer object "
+        "(max_reflections, to_point, from_point) against fresh tracers; a case is non-trivial when it has at "
         "least one reflection, layer crossing or a guard; distinct = distinct (kind, ice, endpoints, option) tuples")
 LEVEL_TEXT = ("image-source theorems (length, mirror law, boundary points, directions, tof), chain continuity, Snell / "
               "mirror step of the layered trace, split-medium reductions, unit transmission / zero reflection for equal "
@@ -426,13 +428,15 @@ def split_params(run, kind):
         be = r.choice([None, r.uniform(1.0, 2.4)])
         zA, zB = r.uniform(lo * 0.9, -5), r.uniform(lo * 0.9, -5)
         cuts = sorted({round(r.uniform(lo * 0.95, -2), 3) for _ in range(ncut)}, reverse=True)
-        params = {"n": n, "lo": lo, "above": ab, "below": be, "cuts": cuts}
+        params = {"n": n, "lo": lo, "above": ab, "below": be, "cuts": cuts, "subclass": r.random() < 0.3}
     else:
         # endpoints above z_uniform (-764 m) and not near-vertical: below / steeper than that the one-medium tracer
         # itself is only approximate (deep-ice uniform index, small-beta cancellation: property C01)
-        zA, zB = r.uniform(-700, -20), r.uniform(-600, -10)
-        cuts = sorted({round(r.uniform(-740, -5), 3) for _ in range(ncut)}, reverse=True)
-        params = {"cuts": cuts}
+        cls = r.choice(["AntarcticIce", "AntarcticIce", "ArasimIce", "GreenlandIce"])
+        top = -380.0 if cls == "GreenlandIce" else -700.0        # z_uniform of GreenlandIce is -410 m
+        zA, zB = r.uniform(top, -20), r.uniform(top + 100, -10)
+        cuts = sorted({round(r.uniform(top - 40, -5), 3) for _ in range(ncut)}, reverse=True)
+        params = {"cuts": cuts, "cls": cls}
     for c in cuts:      # keep the endpoints off the cuts
         if abs(zA - c) < 0.5:
             zA = c - 0.7
@@ -452,16 +456,22 @@ def split_build(data):
     cuts = list(params["cuts"])
     if kind == "uniform":
         n, lo, ab, be = params["n"], params["lo"], params["above"], params["below"]
+        U = im.UniformIce
+        if params.get("subclass"):
+            class SlabIce(im.UniformIce):        # a user subclass of a shipped ice: traced by the same tracer
+                pass
+            U = SlabIce
         full = im.UniformIce(n, valid_range=(lo, 0.0), index_above=ab, index_below=be)
         edges = [0.0] + cuts + [lo]
-        layers = [im.UniformIce(n, valid_range=(edges[i + 1], edges[i]), index_above=None, index_below=None)
+        layers = [U(n, valid_range=(edges[i + 1], edges[i]), index_above=None, index_below=None)
                   for i in range(len(edges) - 1)]
         lice = LayeredIce(layers, index_above=ab, index_below=be)
         unsplit = lambda A, B: _with(rt.UniformRayTracer(A, B, full), max_reflections=1)
     else:
-        full = im.AntarcticIce()
-        edges = [0.0] + cuts + [-2850.0]
-        layers = [im.AntarcticIce(valid_range=(edges[i + 1], edges[i]), index_above=(1 if i == 0 else None),
+        C = getattr(im, params.get("cls", "AntarcticIce"))
+        full = C()
+        edges = [0.0] + cuts + [float(full.valid_range[0])]
+        layers = [C(valid_range=(edges[i + 1], edges[i]), index_above=(1 if i == 0 else None),
                                   index_below=None) for i in range(len(edges) - 1)]
         lice = LayeredIce(layers, index_above=1, index_below=None)
         unsplit = lambda A, B: rt.SpecializedRayTracer(A, B, full)
@@ -512,10 +522,17 @@ def check_split(run, kind, report, data=None):
     data = data or split_params(run, kind)
     kind, params, A, B = data["kind"], data["params"], data["A"], data["B"]
     full, lice, unsplit = split_build(data)
-    with np.errstate(all="ignore"):
-        us = unsplit(A, B).solutions
-        ltr = LayeredRayTracer(A, B, lice)
-        ls = list(ltr.solutions)
+    try:
+        with np.errstate(all="ignore"):
+            us = unsplit(A, B).solutions
+            ltr = LayeredRayTracer(A, B, lice)
+            ls = list(ltr.solutions)
+            [(s_.path_length, s_.tof, s_.fresnel, s_.emitted_direction, s_.received_direction) for s_ in ls]
+    except Exception as e:
+        run.case(("split", kind, str(params), tuple(A), tuple(B)), nontrivial=True)
+        report("split-crash", data, observed="%s: %s" % (type(e).__name__, str(e)[:300]),
+               what="tracing the cut medium raises")
+        return False
     run.case(("split", kind, str(params), tuple(A), tuple(B)), nontrivial=True,
              sample={"kind": "split/" + kind, "A": A, "B": B, "cuts": params["cuts"], "unsplit": len(us), "layered": len(ls)})
     run.count("split_%s_cuts_%d" % (kind, len(params["cuts"])))
@@ -549,6 +566,17 @@ def check_split(run, kind, report, data=None):
             report("split-direction", data, observed=[fls(e2), fls(r2)], expected=[fls(e1), fls(r1)],
                    what="emitted/received direction of the split medium differs")
             return False
+        # attenuation: the product over the single-layer paths is the attenuation of the unsplit path (both are
+        # discretised with ~1 m steps: 2e-3 of the exponent)
+        fq = np.array([1e8, 3e8, 8e8])
+        with np.errstate(all="ignore"):
+            au, al = np.asarray(u.attenuation(fq), float), np.asarray(l.attenuation(fq), float)
+        if np.all(au > 1e-250) and np.all(al > 1e-250):
+            eu, el = -np.log(au), -np.log(al)
+            if np.any(np.abs(eu - el) > 2e-3 * np.abs(eu) + 1e-6 + 0.01 * E):
+                report("split-attenuation", data, observed=al.tolist(), expected=au.tolist(),
+                       what="attenuation of the chained single-layer paths differs from the unsplit path")
+                return False
         # unit transmission: the layered Fresnel product equals the unsplit path's own factor
         fu, fl_ = u.fresnel, l.fresnel
         if max(abs(complex(fu[0]) - complex(fl_[0])), abs(complex(fu[1]) - complex(fl_[1]))) > (1e-7 if kind == "uniform" else 1e-5) + 10 * E / ul:
@@ -1041,6 +1069,55 @@ def oracle_forms(run, data):
     return True
 
 
+def oracle_reuse(run, data):
+    """one tracer object re-used: changing max_reflections or an endpoint after a query gives the result of a fresh
+    tracer (evaluate - replace - evaluate), and reading the solutions twice gives the same objects' values"""
+    rt, im, LayeredIce, LayeredRayTracer = _mods()
+
+    def fresh(A, B, mr):
+        if data["which"] == "uniform":
+            n, lo, hi, ab, be = data["ice"]
+            tr = rt.UniformRayTracer(A, B, im.UniformIce(n, valid_range=(lo, hi), index_above=ab, index_below=be))
+        else:
+            tr = LayeredRayTracer(A, B, build_stack(data))
+        tr.max_reflections = mr
+        return tr
+
+    def sig(tr):
+        with np.errstate(all="ignore"):
+            return [solution_signature(s) for s in tr.solutions]
+    A, B, C = data["A"], data["B"], data["C"]
+    run.case(("oracle-reuse", str(data)), nontrivial=True)
+    tr = fresh(A, B, data["mr1"])
+    first = sig(tr)
+    # path objects handed out earlier keep describing the pair they were solved for (their lazy quantities are read late)
+    held = fresh(A, B, data["mr1"])
+    with np.errstate(all="ignore"):
+        old_paths = list(held.solutions)
+    held.to_point = np.array(C, dtype=float)
+    held.from_point = np.array(B, dtype=float)
+    with np.errstate(all="ignore"):
+        late = [solution_signature(s) for s in old_paths]
+    if late != first:
+        run.fail_input("reuse", dict(data, changed="held paths"), observed=late[:2], expected=first[:2],
+                       what="path objects obtained before the tracer's endpoints were replaced changed with them")
+        return False
+    steps = [("max_reflections", data["mr2"], lambda: fresh(A, B, data["mr2"])),
+             ("to_point", np.array(C, dtype=float), lambda: fresh(A, C, data["mr2"])),
+             ("from_point", np.array(B, dtype=float), lambda: fresh(B, C, data["mr2"]))]
+    if first != sig(tr):
+        run.fail_input("reuse", data, what="reading solutions twice gives different values")
+        return False
+    for attr, val, mk in steps:
+        setattr(tr, attr, val)
+        got, want = sig(tr), sig(mk())
+        if got != want:
+            run.fail_input("reuse", dict(data, changed=attr), observed=got[:2], expected=want[:2],
+                           what="after assigning %s on a used tracer the solutions differ from a fresh tracer's" % attr)
+            return False
+    return True
+
+
 def bounce_walks(m, start, down, refl):
     """independent enumeration of the complete index walks: depth-first over "move on" / "turn around" """
     out = []
@@ -1059,6 +1136,38 @@ def bounce_walks(m, start, down, refl):
             go(walk + [l], not down, r - 1)
     go([start], down, refl)
     return out
+
+
+def oracle_potential(run, seq=None):
+    """`_potential_paths` of tracers used one after the other on stacks with different numbers of layers but the same
+    (start layer, end layer, max_reflections) against the exhaustive enumeration of the walks"""
+    rt, im, LayeredIce, LayeredRayTracer = _mods()
+    if seq is None:
+        r = run.rng
+        s, e, mr = r.randint(0, 1), r.randint(0, 1), r.randint(0, 2)
+        seq = [{"nl": nl, "start": s, "end": e, "max_reflections": mr} for nl in (2, 4, 3, 2)]
+    run.case(("oracle-potential", str(seq)), nontrivial=True)
+    for item in seq:
+        nl = item["nl"]
+        bounds = [-100.0 * i for i in range(nl + 1)]
+        ice = LayeredIce([im.UniformIce(1.5, valid_range=(bounds[i + 1], bounds[i]), index_above=None, index_below=None)
+                          for i in range(nl)], index_above=1, index_below=None)
+        tr = LayeredRayTracer((0, 0, bounds[item["start"]] - 50.0), (40, 0, bounds[item["end"]] - 30.0), ice)
+        tr.max_reflections = item["max_reflections"]
+        got = tr._potential_paths
+        want = []
+        for down in (False, True):
+            ws = set()
+            for w in bounce_walks(nl - 1, item["start"], down, item["max_reflections"]):
+                ws |= {w[:i + 1] for i, lv in enumerate(w) if lv == item["end"]}
+            want.append(ws)
+        if (set(got[0]), set(got[1])) != (want[0], want[1]):
+            run.fail_input("potential-paths", {"sequence": seq, "failing": item},
+                           observed=[sorted(got[0]), sorted(got[1])], expected=[sorted(want[0]), sorted(want[1])],
+                           what="_potential_paths of a %d-layer stack (after tracers on other stacks were used) is not the set of "
+                                "walk prefixes ending in the receiver's layer" % nl)
+            return False
+    return True
 
 
 def oracle_enumeration(run, deep):
@@ -1088,6 +1197,8 @@ def oracle_enumeration(run, deep):
 def search(run, deep):
     rt, im, LayeredIce, LayeredRayTracer = _mods()
     oracle_enumeration(run, deep)
+    for i in range(4 if not deep else 40):
+        oracle_potential(run)
     n = run.scale(200, 3000) if not deep else 3000
     for i in range(n):
         ice = rand_uice(run, im)
@@ -1139,6 +1250,15 @@ def search(run, deep):
         for i in range(m if not deep else 10 * m):
             run.count("forms_" + which)
             oracle_forms(run, forms_case(run, which))
+    # evaluate - replace - evaluate on one tracer object
+    for which, m in (("uniform", 6), ("layered", 3)):
+        for i in range(m if not deep else 10 * m):
+            d = forms_case(run, which)
+            d.update(C=[d["B"][0] + run.rng.randint(5, 90), d["B"][1] - run.rng.randint(5, 90), d["A"][2]],
+                     mr1=run.rng.choice([0, 1]), mr2=run.rng.choice([1, 2]) if which == "uniform" else 1)
+            d.pop("max_reflections", None)
+            run.count("reuse_" + which)
+            oracle_reuse(run, d)
     # endpoints exactly on a range bound with explicit outside indices: tof = n L / c with the index of the ice itself
     for i in range(10 if not deep else 100):
         ice = rand_uice(run, im)
@@ -1173,6 +1293,8 @@ def replay(run, data):
             oracle_uniform(run, rt, ice, inp["A"], inp["B"], inp["max_reflections"], "boundary" if on_bound else "general")
     elif kind == "complete-critical":
         oracle_critical(run, inp)
+    elif kind == "reuse":
+        oracle_reuse(run, {k: v for k, v in inp.items() if k != "changed"})
     elif kind.startswith("forms-"):
         oracle_forms(run, {k: v for k, v in inp.items() if k != "form"})
     elif kind.startswith("layered-") and "layers" in inp:
@@ -1185,6 +1307,8 @@ def replay(run, data):
         tr = LayeredRayTracer(inp["A"], inp["B"], ice)
         with np.errstate(all="ignore"):
             oracle_layered_chain(run, tr, tr.solutions, {k: inp[k] for k in ("bounds", "n", "above", "below", "A", "B")})
+    elif kind == "potential-paths":
+        oracle_potential(run, inp["sequence"])
     elif kind == "build-path":
         oracle_enumeration(run, True)
     elif kind.startswith("split-"):
